@@ -5,6 +5,7 @@ import (
 	"encoding/hex"
 	"errors"
 	"fmt"
+	"runtime"
 	"runtime/metrics"
 	"strings"
 	"sync/atomic"
@@ -160,6 +161,7 @@ type runCtx struct {
 	mode       string
 	types      []uint
 	selv       int
+	exact      bool   // sei-extract: SEI extraction calls are also measured with runtime.MemStats (exact, stops the world)
 	toolIn     []byte // what the tools get instead of the first item (chain-ue: the whole stream)
 	toolDesc   string
 }
@@ -228,7 +230,19 @@ func (x *runCtx) call(op string, n int, f func()) bool {
 		atomic.AddInt64(&monGen, 1)
 		atomic.StoreInt32(&monActive, 1)
 	}
+	var exact0 uint64
+	if x.exact {
+		var ms runtime.MemStats
+		runtime.ReadMemStats(&ms)
+		exact0 = ms.TotalAlloc
+	}
 	pi := x.c.Guard(f)
+	var exactD uint64
+	if x.exact {
+		var ms runtime.MemStats
+		runtime.ReadMemStats(&ms)
+		exactD = ms.TotalAlloc - exact0
+	}
 	if x.seq != nil {
 		atomic.StoreInt32(&monActive, 0)
 		if atomic.LoadInt32(&tripped) != 0 {
@@ -260,7 +274,21 @@ func (x *runCtx) call(op string, n int, f func()) bool {
 			x.c.Seen("alloc_above_one_eighth_of_bound", op)
 		}
 	}
+	if x.exact && seiExtractionOp(op) {
+		// sei.ExtractSEIData allocates the announced payload size before it reads (an ff-run size field of k bytes
+		// announces 255*k): inside the bound, recorded as an observation (exact: runtime.MemStats.TotalAlloc)
+		x.c.SetMax("sei_extraction_max_allocated_bytes_in_one_call", int64(exactD))
+		if n >= 256 {
+			x.c.SetMax("sei_extraction_max_allocated_bytes_per_input_byte_x100(inputs >= 256 bytes)", int64(exactD*100/uint64(n)))
+		}
+		x.c.Count("sei_extraction_calls_measured_exactly", 1)
+	}
 	return true
+}
+
+// seiExtractionOp: the operations that run sei.ExtractSEIData on the input.
+func seiExtractionOp(op string) bool {
+	return op == "sei.ExtractSEIData" || strings.HasPrefix(op, "avc.ParseSEINalu(") || strings.HasPrefix(op, "hevc.ParseSEINalu(")
 }
 
 func head(s string, n int) string {
@@ -740,6 +768,43 @@ func (x *runCtx) seiDirect(pl []byte, types []uint) {
 		_ = sd.Payload()
 		_ = sei.SEIType(sd.Type()).String()
 	})
+}
+
+// runSEIExtract: SEI extraction only (inputs whose size field announces up to
+// 255 x their length: every extraction allocates that much, so the other ~400
+// operations of runOps are not repeated on them).
+func (x *runCtx) runSEIExtract() {
+	x.exact = true
+	in := x.in
+	n := len(in)
+	hdr := 2
+	if n > 0 && in[0]&0x1f == 6 && in[0]&0x80 == 0 {
+		hdr = 1
+	}
+	if n >= hdr {
+		body := in[hdr:]
+		x.call("sei.ExtractSEIData", len(body), func() {
+			if sds, err := sei.ExtractSEIData(bytes.NewReader(body)); (err == nil || errors.Is(err, sei.ErrRbspTrailingBitsMissing)) && len(sds) > 0 {
+				x.ok()
+			}
+		})
+	}
+	var msgs []sei.SEIMessage
+	if hdr == 1 {
+		x.call("avc.ParseSEINalu(nil)", n, func() { msgs = usable(avc.ParseSEINalu(in, nil)) })
+		x.useMsgs("avc.ParseSEINalu", n, msgs)
+		sps := x.maps.avcSEISPS[0]
+		msgs = nil
+		x.call("avc.ParseSEINalu(sps)", n, func() { msgs = usable(avc.ParseSEINalu(in, sps)) })
+		x.useMsgs("avc.ParseSEINalu", n, msgs)
+		return
+	}
+	x.call("hevc.ParseSEINalu(nil)", n, func() { msgs = usable(hevc.ParseSEINalu(in, nil)) })
+	x.useMsgs("hevc.ParseSEINalu", n, msgs)
+	sps := x.maps.hevcSEISPS[0]
+	msgs = nil
+	x.call("hevc.ParseSEINalu(sps)", n, func() { msgs = usable(hevc.ParseSEINalu(in, sps)) })
+	x.useMsgs("hevc.ParseSEINalu", n, msgs)
 }
 
 // runSEINal sends an SEI NAL unit through the two ParseSEINalu functions with
